@@ -466,7 +466,7 @@ func (w *World) Exec(op Op) {
 		for _, p := range op.Par {
 			p := p
 			switch p.K {
-			case "creq", "craw", "close":
+			case "creq", "craw", "close", "stop", "lose":
 				wg.Add(1)
 				go func() {
 					defer wg.Done()
